@@ -274,6 +274,21 @@ Proof.
   - eapply Forall_impl; [|exact Hvr]. intros a Ha. now rewrite !valid_h_put.
 Qed.
 
+Lemma forget_blocks_pending bl : forall s h, Forall (fun h => valid_h s h = true) bl ->
+  c_pending (get (fst (forget_blocks s bl)) h) = if memb h bl then 0 else c_pending (get s h).
+Proof.
+  induction bl as [|h0 r IH]; intros s h Hv; [reflexivity|].
+  inversion Hv as [|x y Hv0 Hvr]; subst.
+  cbn [forget_blocks]. unfold assign_started, assign_added.
+  match goal with |- context [forget_blocks ?s3 r] =>
+    specialize (IH s3 h); destruct (forget_blocks s3 r) as [s4 o4] eqn:Ef end.
+  cbn [fst snd] in *. rewrite IH.
+  - unfold memb. cbn [existsb]. fold (memb h r). destruct (memb h r); [now rewrite orb_true_r|].
+    rewrite orb_false_r. rewrite !get_put, !valid_h_put, Hv0, !Nat.eqb_refl. cbn [andb].
+    destruct (Nat.eqb h h0) eqn:E; cbn [andb]; reflexivity.
+  - eapply Forall_impl; [|exact Hvr]. intros a Ha. now rewrite !valid_h_put.
+Qed.
+
 Lemma forget_blocks_obs bl : forall s,
   filter is_wire (snd (forget_blocks s bl)) = [] /\
   filter is_flag_cb (snd (forget_blocks s bl)) = snd (forget_blocks s bl).
@@ -531,4 +546,21 @@ Proof.
   - split; reflexivity.
   - split; reflexivity.
   - split; reflexivity.
+Qed.
+
+(* the reset reply of a new session forgets: whatever state the configurations of log_blocks are in (whatever
+   acknowledgements of the old session arrived after its link was gone), afterwards none of them is added,
+   started or pending, and log_blocks is empty *)
+Lemma reset_reply_forgets s cmd id status : blocks_valid s -> reset_applies s cmd = true ->
+  let s1 := fst (fst (on_settings s cmd id status)) in
+  s_blocks s1 = [] /\
+  forall h, memb h (s_blocks s) = true -> flags (get s1 h) = (false, false) /\ c_pending (get s1 h) = 0.
+Proof.
+  intros Hv R. cbn zeta. split; [apply (reset_ack_blocks s cmd id status R)|].
+  intros h Hm. split.
+  - rewrite on_settings_flags by exact Hv. now rewrite R, Hm.
+  - rewrite on_settings_split, R.
+    pose proof (forget_blocks_pending (s_blocks s) s h Hv) as P.
+    destruct (forget_blocks s (s_blocks s)) as [sf o1]. cbn [fst snd] in *.
+    rewrite get_set_rp, get_set_toc, get_set_blocks, P, Hm. reflexivity.
 Qed.
